@@ -170,8 +170,7 @@ def run(rep, tier, rng):
     ARGS = {"ignore": "ignore", "reverse": "reverse", "key": "key = ::dxrt::k(&$)", "by": "by = ::dxrt::by_cmp"}
     for a in M.ATTRS:
         for argname, arg in ARGS.items():
-            if argname == "reverse" and a not in ("ord", "partial_ord"):
-                continue
+            # (`reverse` means nothing for eq / partial_eq / hash; on a type or variant it is refused like everywhere)
             for where in ("type", "variant"):
               for deco in ("{}", "bound(), {}", "{}, bound(..)", "bound(u8: Copy, ..), {}", "{}, bound(u8)"):
                 for tr in [ALL5] + M.OWNS[a]:
